@@ -675,8 +675,8 @@ def explore(ck, n_calls, n_hist, n_binned, n_big, max_n, use_model=True):
                 run_history(ck, rec, [sw], R, use_model, batch)
         for _ in range(n_hist):
             run_history(ck, rec, gen_history(rng, R, min(max_n, 60)), R, use_model, batch)
-        for _ in range(max(1, n_calls // 10)):
-            call = gen_call(rng, R, 40)
+        for _ in range(max(1, n_calls // 5)):
+            call = gen_call(rng, R, 60)
             npos = rng.choice([2, 3, 5])
             gp = to_grid(rng, call["p"], npos)
             if gp is not None:
@@ -706,7 +706,9 @@ def run_corpus_case(ck, rec, c, R, use_model, batch):
 def make_check():
     return vlib.Check(
         PROP, pkg="colloc", props="Proofs.Props.C04", driver="drv_c04",
-        lemma_files=["Proofs/Lemmas/GeoIndex.lean", "Proofs/Lemmas/Collocate.lean"],
+        lemma_files=["Proofs/Lemmas/GeoIndex.lean", "Proofs/Lemmas/Collocate.lean", "Proofs/Lemmas/Binning.lean",
+                     "Proofs/Lemmas/Assemble.lean", "Proofs/Lemmas/Pipeline.lean", "Proofs/Lemmas/Main.lean",
+                     "Proofs/Lemmas/History.lean"],
         model_files=["Model/GeoIndex.lean", "Model/Collocate.lean"],
         trusted=["hand-written model Model/Collocate.lean (+ Model/GeoIndex.lean) tied to typhon/collocations/collocator.py by the "
                  "correspondence run of this check (driver drv_c04: datasets, recorded raw tree answers, the permutation of every "
